@@ -7,6 +7,15 @@ namespace Pike
 namespace C18
 open Sys Entry
 
+/-- Obligation on the extracted lock scopes (regenerated from cache/dispatcher.go): the store
+delete of a purge is issued while the shard mutex is held, and the get-or-create of a lookup
+holds the same mutex — so for every request of that shard the removal from memory and from the
+store is one atomic step, which is what the single `purge` event of `Sys.step` assumes. -/
+theorem facts_purge_atomic :
+    "dispatcher.RemoveHTTPCache:Delete:httpLRUCache" ∈ Facts.storeCalls
+      ∧ (Facts.accessTable.filter fun a => a.typ = "httpLRUCache" ∧ a.field = "cache").all (fun a => a.lockW) = true := by
+  decide
+
 /-- FULL STATEMENT (effect).  Once `purge k` has completed (with the store delete acknowledged)
 the key has no resident entry and no persisted record; other keys keep entry and record. -/
 theorem purge_effect (s : State) (k : Key) :
